@@ -640,6 +640,73 @@ def _r09h(rep):
 
 
 
+_MINUS_Q_CONTROL = '''
+def bad(self):
+    mesh = np.array(self._mesh)
+    address = -np.array(self._gp.grid_address) % mesh
+    return np.dot(address, [1, mesh[0], mesh[0] * mesh[1]])
+
+def good(self):
+    mesh = np.array(self._mesh)
+    address = (-np.array(self._gp.grid_address) - self._gp.is_shift) % mesh
+    return np.dot(address, [1, mesh[0], mesh[0] * mesh[1]])
+'''
+
+
+def _minus_q_sites(tree):
+    """[(function, negation node, ok)]: grid addresses negated to address the point -q"""
+    out = []
+    for fn in [x for x in ast.walk(tree) if isinstance(x, ast.FunctionDef)]:
+        asg = {}
+        for st in ast.walk(fn):
+            if isinstance(st, ast.Assign) and len(st.targets) == 1 and isinstance(st.targets[0], ast.Name):
+                asg.setdefault(st.targets[0].id, []).append(st.value)
+
+        def mentions(e, words, depth=0):
+            for x in ast.walk(e):
+                txt = x.attr if isinstance(x, ast.Attribute) else (x.id if isinstance(x, ast.Name) else None)
+                if txt and any(w in txt.lower() for w in words):
+                    return True
+                if isinstance(x, ast.Name) and x.id in asg and depth < 3:
+                    if any(mentions(v, words, depth + 1) for v in asg[x.id]):
+                        return True
+            return False
+
+        for x in ast.walk(fn):
+            neg = None
+            if isinstance(x, ast.UnaryOp) and isinstance(x.op, ast.USub) and mentions(x.operand, ("grid_address", "address")) and not isinstance(x.operand, ast.Constant):
+                neg = x
+            elif isinstance(x, ast.BinOp) and isinstance(x.op, ast.Sub) and isinstance(x.left, ast.Constant) and x.left.value == 0 and mentions(x.right, ("grid_address",)):
+                neg = x
+            if neg is None or core.enclosing_function(neg) is not fn and getattr(neg, "_parent", None) is not None and core.enclosing_function(neg) is not None and core.enclosing_function(neg) is not fn:
+                continue
+            if not mentions(neg, ("grid_address",)):
+                continue
+            # the statement the negation belongs to: the half-shift must take part in it
+            st = neg
+            while getattr(st, "_parent", None) is not None and not isinstance(st, ast.stmt):
+                st = st._parent
+            ok = mentions(st if isinstance(st, ast.stmt) else neg, ("shift",))
+            out.append((fn, neg, ok))
+    return out
+
+
+def _r09n(rep):
+    """The grid point of -q on a half-shifted mesh."""
+    rep.rule("R09n", "time-reversal partners on the sampling mesh: with q = (g + s/2)/m the point -q has the address -g - s (s the half-shift flags), so any expression that negates grid addresses to find the partner of a grid point also involves the shift flags; (-g) mod m is -q only on an unshifted axis, on a Monkhorst-Pack axis with an even mesh number it is the neighbour -q + 1/m, and frequencies copied from it do not belong to the q-point they are stored for (expected count on the tree: none; the rule is kept alive by a built-in pair of examples)", 0)
+    t = ast.parse(_MINUS_Q_CONTROL)
+    for n_ in ast.walk(t):
+        for c_ in ast.iter_child_nodes(n_):
+            c_._parent = n_
+    ctrl = sorted((f.name, ok) for f, _, ok in _minus_q_sites(t))
+    if ctrl != [("bad", False), ("good", True)]:
+        raise AnalysisError(f"R09n: the rule no longer classifies its own two examples ({ctrl})")
+    for rel in ("phonopy/phonon/mesh.py", "phonopy/structure/grid_points.py", "phonopy/phonon/tetrahedron_mesh.py", "phonopy/phonon/dos.py", "phonopy/phonon/thermal_properties.py"):
+        for fn, neg, ok in _minus_q_sites(core.parse(rel)):
+            rep.instance("R09n", rel, core.qualname_of(fn), core.norm(core.src(neg), 80), ok,
+                         f"'{core.norm(core.src(neg), 70)}' negates grid addresses without the half-shift flags: on an axis with an even mesh number and the default Monkhorst-Pack centring the address found is that of -q + 1/m, not -q; grid points are then counted twice or never in every mesh sum", line=neg.lineno)
+
+
 def _r09l(rep):
     """Degree typing of the compiled mesh consumers in the multiplicities of the irreducible q-points."""
     from engine import cast
@@ -828,6 +895,7 @@ def run(rep: core.Report):
     _r09h(rep)
     _r09j(rep)
     _r09l(rep)
+    _r09n(rep)
     from rules import shared_bandaxis
 
     shared_bandaxis.run(rep, "R09m", [("phonopy/phonon/moment.py", "PhononMoment._get_projected_moment", {})], 1)
